@@ -67,6 +67,46 @@ def gen_ticks(rng, n, steps=(0, 1, 1, 1, 2, 5, 20)):
     return [{"step_ns": rng.choice(steps) * 10**9} for _ in range(n)]
 
 
+def dropin_noise(rng, rulesets, ticks, p=0.35):
+    """drop-in requests between ticks that must not disturb the base rulesets: every base ruleset opens detectors and actions up
+    (disable-on-drop-in stays off), the drop-ins bring their own detector group and action (ids unknown to the oracle, scripted
+    plugins default to CONTINUE), are added / re-added / removed, and some adds fail half-way (second ruleset of the file has
+    an unknown target) and are rolled back. Returns the number of requests."""
+    for rs in rulesets:
+        rs["drop-in"] = {"detectors": True, "actions": True}
+    tags, live, n = ["n0.json", "n1.json", "n2.json"], set(), 0
+    for ti, t in enumerate(ticks):
+        if ti == 0 or rng.random() > p:
+            continue
+        ops = []
+        for _ in range(rng.choice([1, 1, 2])):
+            tag = rng.choice(tags)
+            r = rng.random()
+            n += 1
+            if r < 0.4 and tag in live:
+                ops.append({"op": "remove", "tag": tag})
+                live.discard(tag)
+            else:
+                u = "x%d.%d" % (ti, n)
+                tgt = rng.choice(rulesets)["name"]
+                part = rng.random()
+                rsd = {"name": tgt}
+                if part < 0.8:
+                    rsd["detectors"] = [["dg", W.det(u + ".d")]]
+                    rsd["actions"] = [W.act(u + ".a")]
+                else:
+                    # only hooks / nothing for the ruleset itself would re-instantiate the base's plugins under the same ids
+                    rsd = None
+                cfg = {"rulesets": [rsd] if rsd else []}
+                if r > 0.8 and rsd:
+                    cfg["rulesets"].append({"name": "no-such-ruleset", "actions": [W.act(u + ".b")]})
+                else:
+                    live.add(tag)
+                ops.append({"op": "add", "tag": tag, "config": cfg})
+        t["dropins"] = ops
+    return n
+
+
 def mk_scn(cid, config, scripts, ticks, extra=None):
     s = {"id": cid, "interval": 1, "config": config, "scripts": scripts, "ticks": ticks}
     s.update(BASE_WORLD)
@@ -86,6 +126,8 @@ def cases(seed, tier):
         scripts = gen_scripts(rng, rulesets, nticks, fire_p)
         ticks = gen_ticks(rng, nticks)
         cid = "C02-%d-%d" % (seed, i)
+        if i % 5 == 4 and not (nrs > 1 and i % 3 == 0):
+            dropin_noise(rng, rulesets, ticks)
         scns = [mk_scn(cid, {"rulesets": rulesets}, scripts, ticks)]
         if nrs > 1 and i % 3 == 0:
             for k, rs in enumerate(rulesets):
@@ -111,7 +153,10 @@ def judge(case, results, own=OWN):
     if cr:
         v.bad("crash:" + cr[0], cr[1], cr[2])
         return v
-    viol, st = engine.check(scn["config"], res.events, nticks=len(scn["ticks"]))
+    viol, st = engine.check(scn["config"], res.events, nticks=len(scn["ticks"]), identity="C11" in own)
+    st["dropin_requests"] = sum(1 for e in res.events if e.get("ev") == "dropin")
+    st["dropin_adds_applied"] = sum(1 for e in res.events if e.get("ev") == "dropin_result" and e["op"] == "add" and e["ok"])
+    st["dropin_adds_rolled_back"] = sum(1 for e in res.events if e.get("ev") == "dropin_result" and e["op"] == "add" and not e["ok"])
     for prop, rule, disc, detail in viol:
         if prop in own or prop == "ANY":
             v.bad(rule, disc, detail)
